@@ -1,4 +1,5 @@
 import PoxModel.Proofs.Contain
+import PoxModel.Proofs.SwTrace
 /-! # C10 — malformed OpenFlow input is contained to the offending connection
 
 `U` (the message decoders) is COMPLETELY unconstrained in every theorem of this file: it may return any offset, raise,
@@ -77,6 +78,63 @@ def demoStream : Bytes :=
 example : (swFeed demoU init demoStream).delivered = [2, 3] ∧ (swFeed demoU init demoStream).st = .alive := by decide
 example : (ctlFeed demoU 8 init demoStream).delivered = [2] ∧ (ctlFeed demoU 8 init demoStream).st = .dead := by decide
 
+
+/-! ## "either the bytes are answered with an error and skipped, or that one connection is closed"
+
+`swFeedT` is `swFeed` keeping the trace of what happened to every window (`sw_trace_is_feed`).  `U` is still completely
+unconstrained. -/
+
+/-- the trace-keeping model is the model all other theorems are about, plus bookkeeping -/
+theorem sw_trace_is_feed (U : Unpack Msg) (chunks : List Bytes) :
+    (chunks.foldl (swFeedT U) initT).buf = (chunks.foldl (swFeed U) init).buf ∧
+    delivs (chunks.foldl (swFeedT U) initT).trace = (chunks.foldl (swFeed U) init).delivered ∧
+    (chunks.foldl (swFeedT U) initT).st = (chunks.foldl (swFeed U) init).st :=
+  swFeedT_proj U chunks
+
+/-- **sw_answered_or_closed**: for every byte string, however it is cut into reads and whatever the decoders do —
+(1) every received byte is accounted for: the stream is the concatenation of the consumed windows in order, then what
+    is still buffered, then (only after the connection was closed) the bytes that were ignored;
+(2) every consumed window is a whole message (version 1, declared length ≥ 8 and equal to its size); it was either
+    delivered, or skipped and ANSWERED: exactly one OFPET_BAD_REQUEST error with code BAD_TYPE (no decoder) or BAD_LEN
+    (decoder raised / consumed another length), the window's own xid, and its first 64 bytes as data;
+(3) no exception escapes; while the connection is up nothing was closed; and when it is closed that is the last thing
+    that happened, exactly once. -/
+theorem sw_answered_or_closed (U : Unpack Msg) (chunks : List Bytes) :
+    let s := chunks.foldl (swFeedT U) initT
+    (∃ rest, chunks.flatten = (s.trace.map SwEv.win).flatten ++ s.buf ++ rest ∧ (s.st = .alive → rest = [])) ∧
+    (∀ e ∈ s.trace, (∀ w m, e = .deliver w m → WellFramed w) ∧
+        (∀ w c, e = .skip w c → WellFramed w ∧ (c = 1 ∨ c = 6) ∧ e.reply = some (1, c, xidOf w, w.take 64))) ∧
+    s.st ≠ .dead ∧
+    (s.st = .alive → ∀ e ∈ s.trace, e ≠ .close ∧ ∀ x, e ≠ .helloFailed x) ∧
+    (s.st = .closed → ∃ pre last, s.trace = pre ++ [last] ∧ (last = .close ∨ ∃ x, last = .helloFailed x) ∧
+        ∀ e ∈ pre, e ≠ .close ∧ ∀ x, e ≠ .helloFailed x) := by
+  intro s
+  have h := accounted_run U chunks
+  refine ⟨h.tiled, ?_, h.notdead, h.open_, h.shut⟩
+  intro e he
+  obtain ⟨h1, h2⟩ := h.framed e he
+  refine ⟨h1, ?_⟩
+  intro w c hw
+  obtain ⟨a, b⟩ := h2 w c hw
+  exact ⟨a, b, by rw [hw]; rfl⟩
+
+/-- an error reply is sent for nothing else: only skipped windows and the HELLO_FAILED of a wrong-version peer that
+had not yet delivered anything produce one -/
+theorem sw_replies_only_for_skips (e : SwEv Msg) (r : Nat × Nat × Nat × Bytes) (h : e.reply = some r) :
+    (∃ w c, e = .skip w c) ∨ (∃ x, e = .helloFailed x) := by
+  cases e with
+  | deliver w m => simp [SwEv.reply] at h
+  | skip w c => exact .inl ⟨w, c, rfl⟩
+  | helloFailed x => exact .inr ⟨x, rfl⟩
+  | close => simp [SwEv.reply] at h
+
+/-! non-vacuity: the stream of `demoStream` gives deliver, skip(BAD_LEN), skip(BAD_TYPE), skip(BAD_LEN), deliver; a
+wrong-version message on a fresh connection is answered with HELLO_FAILED and closes -/
+example : ((swFeedT demoU initT demoStream).trace.map SwEv.reply) =
+    [none, some (1, 6, 2, [1,9,0,8,0,0,0,2]), some (1, 1, 3, [1,7,0,8,0,0,0,3]), some (1, 6, 4, [1,5,0,8,0,0,0,4]), none] := by decide
+example : (swFeedT demoU initT [4,2,0,8,0,0,0,7]).st = .closed ∧
+    ((swFeedT demoU initT [4,2,0,8,0,0,0,7]).trace.map (fun e => (SwEv.reply e).map (fun r => (r.1, r.2.1, r.2.2.1)))) = [some (0, 0, 7)] := by decide
+example : ((swFeedT demoU initT ([1,2,0,8,0,0,0,1] ++ [4,2,0,8,0,0,0,7])).trace.map (fun e => (SwEv.reply e).isSome)) = [false, false] := by decide
 
 /-- **ctl_disconnect_stops** (repair C09-2 seen from the read loop): whatever the handlers do, within one `read()`
 nothing is dispatched after a message whose handler disconnected the connection — every newly delivered message except
